@@ -83,7 +83,9 @@ func (provider *Provider) Layout(name string) (*template.Template, error) {
 	if name == "" {
 		name = goathtml.DefaultLayout
 	}
+	provider.layoutMutex.Lock()
 	tmpl, ok := provider.layouts[name]
+	provider.layoutMutex.Unlock()
 	if ok {
 		return tmpl, nil
 	}
@@ -139,7 +141,10 @@ func (provider *Provider) View(layoutName, viewName string) (tmpl *template.Temp
 	}
 	key = layoutName + ":" + viewName
 	// check without lock (preformence feature)
-	if tmpl, ok = provider.views[key]; ok {
+	provider.viewMutex.Lock()
+	tmpl, ok = provider.views[key]
+	provider.viewMutex.Unlock()
+	if ok {
 		return tmpl, nil
 	}
 	return provider.view(layoutName, viewName, key)
